@@ -12,7 +12,10 @@ R09a  dotted-name rewrite (``{a.b}`` -> ``{sqlfluff[a.b]}``) of the python templ
         .2 the opening ``{`` of the field cannot be the second brace of an escaped
            ``{{``: either a negative look-behind for ``{`` stands before it, or the
            pattern is an alternation whose earlier alternative consumes ``{{`` and the
-           replacement is a callable (a template would blank the unmatched groups).
+           replacement is a callable (a template would blank the unmatched groups);
+        .3 what follows the field name (the format spec) does not repeat greedily over a
+           class that admits ``}`` — otherwise ``{a.b:s}.{c.d:s}`` is matched up to the
+           *last* brace (a lazy repeat or a class without ``}`` is accepted).
       Accepted without a regex: a rewrite driven by ``string.Formatter`` (``.parse`` /
       a ``Formatter`` subclass) — then there is nothing to check.  A pattern the stdlib
       parser rejects or whose shape is not one of the above is *unknown* (counted).
@@ -335,6 +338,10 @@ def _r09b(chk, repo, proc, render_fns, rewrites) -> None:
             continue
         src_param = params[0]
         rw_calls = {id(rc.call): rc for rc in rewrites.get(id(rf), [])}
+        fmt_driven = not rw_calls and any(
+            isinstance(n, ast.Call) and last_attr(n) in ("parse", "formatter_parser") and n.args and is_param(cfg, n.args[0], cfg.stmt_of(n), src_param)
+            for n in walk_local(rf)
+        )
         rets = [r for r in walk_local(rf) if isinstance(r, ast.Return) and r.value is not None and cfg.reachable(r)]
         chk.count("R09b.render_returns", len(rets))
         for r in rets:
@@ -365,8 +372,8 @@ def _r09b(chk, repo, proc, render_fns, rewrites) -> None:
                         subj = rc.args[1] if len(rc.args) > 1 else None
                         if is_param(cfg, subj, cfg.stmt_of(rc.call), src_param) is None:
                             ok_recv, why = False, f"the rewrite is applied to {short(subj, 40) if subj is not None else '?'!r}, not to the unmodified parameter '{src_param}'"
-                    elif rl.kind == "param" and rl.expr.arg == src_param and not rw_calls:
-                        pass  # Formatter-driven idiom: no regex rewrite exists
+                    elif fmt_driven:
+                        pass  # Formatter-driven idiom: the string is assembled from Formatter().parse(<parameter>)
                     else:
                         ok_recv, why = False, f"the formatted string is {rl.text()!r}, not the dotted-name rewrite of '{src_param}'"
                 chk.require(ok_recv, "R09b", e, f"render function: {why}; dotted names are not looked up in the 'sqlfluff' mapping or a different text is rendered",
@@ -608,17 +615,10 @@ def _r09c(chk, repo) -> None:
             continue
         pat = rx.parse(ptxt)
         if pat is None:
-            # regex-module-only syntax is possible: compile with the module the table uses? No: never run repo code. Unknown.
-            try:
-                import regex as _regex  # the library the table itself names; compiling a literal runs no repository code
-
-                _regex.compile(ptxt)
-                chk.count("R09c.unknown_patterns")
-                chk.note(f"R09c: style {kn!r} uses syntax only the regex module accepts; structure not decided.")
-            except ImportError:
-                chk.count("R09c.unknown_patterns")
-            except Exception as ex:  # does not compile under either parser
-                chk.fail("R09c", v, f"style {kn!r}: pattern {ptxt!r} does not compile ({ex})", detail=f"style {kn}: compiles", construct=con)
+            # regex-module-only syntax (or a broken literal, which fails at import time and
+            # is not this rule's business): unknown, never reported
+            chk.count("R09c.unknown_patterns")
+            chk.note(f"R09c: style {kn!r}: pattern not readable by the stdlib parser; structure not decided.")
             continue
         items = pat.items()
         gd = pat.groupdict
@@ -1136,6 +1136,31 @@ VARIANTS = [
         'r"{([^:}]*\\.[^:}]*)(:\\S*)?}"',
         'r"{([^:]*\\.[^:]*)(:\\S*)?}"',
         "R09a", "field name may contain '}'",
+    ),
+    # the next four are keyed on the text of the proposed repair of R09a (stale until it lands)
+    Variant(
+        "repaired-rewrite-field-class-admits-opening-brace", PY,
+        'r"{{|}}|{([^:{}]*\\.[^:{}]*)(:\\S*?)?}"',
+        'r"{{|}}|{([^:}]*\\.[^:}]*)(:\\S*?)?}"',
+        "R09a", "field name may contain '{'",
+    ),
+    Variant(
+        "repaired-rewrite-escaped-pair-alternative-dropped", PY,
+        'r"{{|}}|{([^:{}]*\\.[^:{}]*)(:\\S*?)?}"',
+        'r"{([^:{}]*\\.[^:{}]*)(:\\S*?)?}"',
+        "R09a", "escaped '{{' is not skipped",
+    ),
+    Variant(
+        "repaired-rewrite-format-spec-greedy-again", PY,
+        'r"{{|}}|{([^:{}]*\\.[^:{}]*)(:\\S*?)?}"',
+        'r"{{|}}|{([^:{}]*\\.[^:{}]*)(:\\S*)?}"',
+        "R09a", "format spec may run past the closing '}'",
+    ),
+    Variant(
+        "repaired-rewrite-applied-to-stripped-source", PY,
+        "_dot_notation_hack, raw_str\n",
+        "_dot_notation_hack, raw_str.strip()\n",
+        "R09b", "formatted string is the rewritten source",
     ),
     Variant(
         "render-formats-unrewritten-source", PY,
